@@ -30,6 +30,9 @@ fn type_name(ty: Ty) -> &'static str {
         Ty::Varchar => "string",
         Ty::Bool => "bool",
         Ty::Double => "double",
+        Ty::SmallInt => "smallint",
+        Ty::Decimal => "decimal(10,2)",
+        Ty::Date => "date",
     }
 }
 
